@@ -33,7 +33,7 @@ OPTS = ["rename", "use_operators", "inline_const", "skip_initializers"]
 
 
 def plan(tier, seed, budget):
-    n = int((640 if tier == "quick" else 24000) * budget)
+    n = int((1600 if tier == "quick" else 24000) * budget)
     shards = 16 if tier == "quick" else 64
     specs = [{"n": max(1, n // shards), "kind": "gen"} for _ in range(shards - 4)]
     specs += [{"n": max(1, n // shards), "kind": "script"} for _ in range(4)]
@@ -258,7 +258,7 @@ def run_shard(spec):
 
         from vf.rulehosts.plant_noop import plant_if_scopes, plant_loop_scopes, plant_operator_table
 
-        cfg = dict(CFG, extra_generators=[plant_if_scopes, plant_loop_scopes, plant_loop_scopes, plant_operator_table, plant_operator_table], extra_weight=1)
+        cfg = dict(CFG, extra_generators=[plant_if_scopes, plant_loop_scopes, plant_loop_scopes, plant_operator_table, plant_operator_table], extra_weight=2)
         drive(st.tuples(opt_strategy, modelgen.models(cfg)), body, spec["n"] if not all16 else max(1, spec["n"] // 16), spec["seed"])
     else:
         def body(case):
